@@ -31,10 +31,18 @@ Inductive case :=
 | CSkip.
 
 Definition vmag (v : vec3 Q) : Q := Qmax' (Qabs (vx v)) (Qmax' (Qabs (vy v)) (Qabs (vz v))).
-Definition mag_of (vs : list (vec3 Q)) : Q := fold_left (fun m p => Qmax' m (vmag p)) vs 1.
+(* largest |coordinate| of the case's own data; no absolute floor *)
+Definition mag_of (vs : list (vec3 Q)) : Q := fold_left (fun m p => Qmax' m (vmag p)) vs 0.
+(* closeness relative to the magnitude of the input data only: a triangle of size 1e-9 is compared as strictly as one of
+   size 1 *)
+Definition close_rel (mag a b : Q) : bool :=
+  Qle_bool (Qabs (a - b)) (tol * Qmax' mag (Qmax' (Qabs a) (Qabs b))).
+Definition fl_close_rel (mag m : Q) (o : fl) : bool := match o with Fin q => close_rel mag m q | _ => false end.
+Definition list_close_rel mag (m : list Q) (o : list fl) : bool := all2 (fl_close_rel mag) m o.
+Definition vec_close_rel mag (m : vec3 Q) (o : list fl) : bool := list_close_rel mag (vlist m) o.
 
 Definition plane_close (m : Q) (pl : plane Q) (o : oplane) : bool :=
-  vec_close_mag m (pref pl) (o_ref o) && vec_close (pnormal pl) (o_normal o) && o_real o.
+  vec_close_rel m (pref pl) (o_ref o) && vec_close (pnormal pl) (o_normal o) && o_real o.
 Definition agree (m : Q) (r : result (plane Q)) (o : result oplane) : bool := res_agree (plane_close m) r o.
 
 (* a row of an observed stack: a vector, or NaN (collinear points) *)
@@ -43,14 +51,14 @@ Definition optvec_close (v : option (vec3 Q)) (o : list fl) : bool :=
 Definition eqlist (e : peq Q) : list Q := [ea e; eb e; ec e; ed e].
 Definition opteq_close (m : Q) (e : option (peq Q)) (o : list fl) : bool :=
   match e with
-  | Some e => list_close_mag m (eqlist e) o
+  | Some e => list_close_rel m (eqlist e) o
   | None => forallb fl_is_nan o && Nat.eqb (length o) 4
   end.
 
 (* the eigen data passed in must be an eigen-decomposition of the model's covariance (to tolerance): orthonormal
    columns, cov u = lambda u *)
 Definition mat_scale (c : mat3 Q) : Q :=
-  Qmax' 1 (fold_left (fun m x => Qmax' m (Qabs x)) (m3list c) 0).
+  fold_left (fun m x => Qmax' m (Qabs x)) (m3list c) 0.
 Definition eig_ok (c : mat3 Q) (e : eig3 Q) : bool :=
   let sc := mat_scale c in
   let chk (l : Q) (u : vec3 Q) :=
@@ -84,7 +92,7 @@ Definition fit_tie_ok (ps : list (vec3 Q)) (lam : Q) (o : oplane) : bool :=
   let t := (1 # 10000000) * sc in
   match fl_vec (o_normal o) with
   | Some n =>
-      o_real o && vec_close_mag (mag_of ps) (centroid QOps ps) (o_ref o) &&
+      o_real o && vec_close_rel (mag_of ps) (centroid QOps ps) (o_ref o) &&
       close (vdot QOps n n) 1 &&
       Qle_bool (vmag (vsub QOps (m3apply QOps c n) (vscale QOps lam n))) t &&
       psd_tol (M3 (a00 c - lam) (a01 c) (a02 c) (a10 c) (a11 c - lam) (a12 c) (a20 c) (a21 c) (a22 c - lam)) t sc
@@ -112,13 +120,13 @@ Definition check_case (c : case) : bool :=
       let ns := plane_normal_from_points_stack QOps true ts in
       let es := plane_equation_from_points_stack QOps ts in
       all2 optvec_close ns n_stack && all2 optvec_close ns n_single &&
-      all2 (fun v o => match v with Some v => vec_close_mag (m * m) v o | None => false end)
+      all2 (fun v o => match v with Some v => vec_close_rel (m * m) v o | None => false end)
            (plane_normal_from_points_stack QOps false ts) raw_stack &&
       all2 (opteq_close m) es e_stack && all2 (opteq_close m) es e_single &&
       (* normal_and_offset_from_plane_equations applied to the observed stack returns its own columns: compared in
          the oracle bit for bit; here against the model's equations *)
       all2 optvec_close (map (option_map (fun e => fst (normal_and_offset e))) es) no_normals &&
-      all2 (fun e o => match e with Some e => fl_close_mag m (snd (normal_and_offset e)) o | None => fl_is_nan o end)
+      all2 (fun e o => match e with Some e => fl_close_rel m (snd (normal_and_offset e)) o | None => fl_is_nan o end)
            es no_offsets
   | CCoord xy xz yz =>
       plane_close 1 (plane_xy QOps) xy && plane_close 1 (plane_xz QOps) xz && plane_close 1 (plane_yz QOps) yz
